@@ -656,6 +656,7 @@ func init() {
 		if c.Replay == "" {
 			c06Real(c, NewRng(c.Seed^0xC15A), "C15")
 			c15Expiry(c, NewRng(c.Seed^0xC15E))
+			c15RetryAfter(c, NewRng(c.Seed^0xC15F))
 		}
 	}
 }
